@@ -513,3 +513,45 @@ def jacobian_residuals(unit, commons_unit, kin):
         o_perf = min([sum(e * order(a) for a, e in m if a in sc.names) for m in fp.t] or [99])
         orders.append((A, o_gen, o_perf))
     return results, cross, problems, structure, orders
+
+
+# --------------------------------------------------------------------------
+# R17.7 isotropic short-cut non-linear modules vs the general ones
+
+def iso_vs_general(iso_unit, gen_unit):
+    """k0L and kLL integrands of an iso_ module == those of the general module under the isotropic laminate"""
+    from . import c16iso
+    from .panelk import abd_name
+    Fiso = c16iso.iso_F()
+    sub = {}
+    for p_ in range(6):
+        for q_ in range(6):
+            sub[abd_name(p_, q_)] = Fiso[p_][q_]
+    consts = unit_consts(gen_unit)
+    e_num = int(consts.get('e_num', 6))
+    results, problems = [], []
+    for calc, cf in (('calc_k0L', 'cfk0L'), ('calc_kLL', 'cfkLL')):
+        mi, evi, pi_ = matrix_entries(iso_unit, calc, cf, e_num)
+        mg, evg, pg = matrix_entries(gen_unit, calc, cf, e_num)
+        problems += pi_ + pg
+        if mi is None or mg is None:
+            continue
+        trig = dict(evi.trig)
+        trig.update(evg.trig)
+        for key in sorted(set(mi) | set(mg)):
+            vi = mi[key][0] if key in mi else P()
+            vg = mg[key][0].subs(sub) if key in mg else P()
+            try:
+                nu, Q = S('nu'), S(c16iso.QNAME)
+                pre = {'INV(%s)' % nfs(C(1) - nu): (C(1) + nu) * Q, 'INV(%s)' % nfs(C(1) + nu): (C(1) - nu) * Q}
+                a = c16iso.reduce_iso(vi.subs(pre), trig)
+                b = c16iso.reduce_iso(vg.subs(pre), trig)
+                ok = a.close(b)
+                detail = '' if ok else '; '.join(a.diffterms(b, 3))
+            except (Unsupported, NonMonomialDivision) as ex:
+                ok, detail = None, str(ex)
+            if key in mi and key in mg and mi[key][2] != mg[key][2]:
+                ok, detail = False, 'written for %s in the short-cut module but for %s in the general one' % (mi[key][2], mg[key][2])
+            results.append({'matrix': cf, 'key': key, 'ok': ok, 'detail': detail, 'line': mi[key][1] if key in mi else 0,
+                            'missing': key not in mi})
+    return results, problems
